@@ -25,7 +25,7 @@ def cached_is(pv, tv):
             and forall(lambda j: exists(lambda m: tv[m]["price"] == keys_of(pv)[j], 0, len(tv)), 0, len(keys_of(pv))))
 
 
-@contract("flumine/markets/middleware.py::RunnerAnalytics._calculate_traded", tags=["C06"], fresh_result=True)
+@contract("flumine/markets/middleware.py::RunnerAnalytics._calculate_traded", tags=["C06", "C05"], fresh_result=True)
 def _(self, traded_volume: ListOf(Ref("PriceSize"))) -> MapOf(REAL, REAL):
     requires("ladder", ladder_ok(traded_volume))
     local(traded=MapOf(REAL, REAL), c_v=MapOf(REAL, REAL))
@@ -51,7 +51,7 @@ def _(self, traded_volume: ListOf(Ref("PriceSize"))) -> MapOf(REAL, REAL):
     ensures("cache_is_the_new_ladder", cached_is(self._p_v, traded_volume))
 
 
-@contract("flumine/markets/middleware.py::RunnerAnalytics.__init__", tags=["C06"])
+@contract("flumine/markets/middleware.py::RunnerAnalytics.__init__", tags=["C06", "C05"])
 def _(self, runner: Ref("RunnerBook")):
     requires("ladder", ladder_ok(runner.ex.traded_volume))
     modifies(self, "runner")
@@ -67,7 +67,7 @@ def same_ladder(a, b):
     return len(a) == len(b) and forall(lambda j: a[j]["price"] == b[j]["price"] and a[j]["size"] == b[j]["size"], 0, len(a))
 
 
-@contract("flumine/markets/middleware.py::RunnerAnalytics.__call__", tags=["C06"])
+@contract("flumine/markets/middleware.py::RunnerAnalytics.__call__", tags=["C06", "C05"])
 def _(self, runner: Ref("RunnerBook")):
     requires("ladder", ladder_ok(runner.ex.traded_volume))
     modifies(self, "runner")
